@@ -48,7 +48,7 @@ def record_and_validate(chk, p, family, scn_file, max_units, label, nchunks=12):
     if summ["extra"].get("panics", 0):
         # a panic inside the code under test is data: it is an event the spec cannot match
         pass
-    results, lines = vlib.validate_trace_parallel("Prio3_Trace", "Prio3_Trace_p%d" % p, trace, nchunks=nchunks, tag="p3%s%d" % (family, p))
+    results, lines = vlib.validate_trace_parallel("Prio3_Trace", "Prio3_Trace_p%d" % p, trace, nchunks=nchunks, timeout=5400, tag="p3%s%d" % (family, p))
     units = 0
     for ok, un, res in results:
         chk.add_tlc(res, None)
